@@ -291,7 +291,13 @@ func runNpm(c npmCase, line string) (before string, reply string) {
 			}
 			ups = append(ups, result.PackageUpdate{Name: u.name, VersionFrom: u.from, VersionTo: u.to, Type: ty})
 		}
-		out := filepath.Join(dir, "out", "package.json")
+		// half of the cases write back to the path the manifest was read from (as FixVulns does), half to a fresh path;
+		// the result is always re-read from disk
+		outRel := "out/package.json"
+		if layoutRng(line+"#path").Intn(2) == 0 {
+			outRel = "package.json"
+		}
+		out := filepath.Join(dir, filepath.FromSlash(outRel))
 		var patches []result.Patch
 		// spread the updates over one or two patches (the writer flattens them)
 		if len(ups) > 1 && len(line)%2 == 0 {
@@ -300,7 +306,7 @@ func runNpm(c npmCase, line string) (before string, reply string) {
 			patches = []result.Patch{{PackageUpdates: ups}}
 		}
 		if err := rw.Write(m, scalibrfs.DirFS(dir), patches, out); err != nil {
-			if _, serr := os.Stat(out); serr == nil {
+			if b, rerr := os.ReadFile(out); rerr == nil && string(b) != src {
 				return "r=err-but-wrote"
 			}
 			return "r=err"
@@ -313,7 +319,7 @@ func runNpm(c npmCase, line string) (before string, reply string) {
 		if err != nil {
 			return "r=ok-badjson"
 		}
-		m2, err := rw.Read("out/package.json", scalibrfs.DirFS(dir))
+		m2, err := rw.Read(outRel, scalibrfs.DirFS(dir))
 		if err != nil {
 			return "r=ok-rereaderr"
 		}
@@ -331,7 +337,8 @@ var npmNames = []string{"plain", "left-pad", "@scope/pkg", "@s/p.q", "socket.io"
 var npmVers = []string{"^1.0.0", "~1.2.3", "1.0.0", "^2.0.0", "*", "latest", "", ">=1.0.0 <2.0.0", "1.x || 2.x"}
 var npmAliasVals = []string{"npm:real@^1.0.0", "npm:@sc/real@~2.1.0", "npm:real@", "npm:other@1.0.0"}
 var npmOddVals = []string{"npm:bare", "git+https://example.invalid/x.git", "file:../x", "user/repo", "npm:", "npm:@only"}
-var npmTo = []string{"^9.0.0", "~8.1.0", "7.0.0", ">=7.0.0 <8.0.0", "9.x", ""}
+// targets of the same length as common old values (^1.0.0 -> ^9.0.0, ~1.2.3 -> ~8.1.0, 1.0.0 -> 7.0.0) and of other lengths
+var npmTo = []string{"^9.0.0", "~8.1.0", "7.0.0", "^9.0.0", ">=7.0.0 <8.0.0", "9.x", "", "^10.0.0"}
 var npmToBad = []string{"2@3", "npm:evil@1", "git://x/y", "a/b"}
 
 func aliasReal(v string) string {
@@ -1137,9 +1144,13 @@ func runPom(c pomCase, comment, cdata bool) (before string, reply string) {
 			}
 			ups = append(ups, result.PackageUpdate{Name: u.name, VersionFrom: u.from, VersionTo: u.to, Type: ty})
 		}
-		out := filepath.Join(s.dir, "out", "pom.xml")
+		outRel := "out/pom.xml"
+		if layoutRng(c.line()+"#path").Intn(2) == 0 {
+			outRel = "pom.xml" // back to the path it was read from
+		}
+		out := filepath.Join(s.dir, filepath.FromSlash(outRel))
 		if err := s.rw.Write(s.m, scalibrfs.DirFS(s.dir), []result.Patch{{PackageUpdates: ups}}, out); err != nil {
-			if _, serr := os.Stat(out); serr == nil {
+			if b, rerr := os.ReadFile(out); rerr == nil && string(b) != s.src {
 				return "r=err-but-wrote"
 			}
 			return "r=err rb=" + pre.reqs
@@ -1148,7 +1159,7 @@ func runPom(c pomCase, comment, cdata bool) (before string, reply string) {
 		if err != nil {
 			return "r=ok-nofile"
 		}
-		m2, err := s.rw.Read("out/pom.xml", scalibrfs.DirFS(s.dir))
+		m2, err := s.rw.Read(outRel, scalibrfs.DirFS(s.dir))
 		if err != nil {
 			return "r=ok-rereaderr"
 		}
